@@ -389,7 +389,11 @@ def getDependencies(productName, versionName=None, eupsenv=None, setup=False, sh
     if not eupsenv:
         eupsenv = Eups()
 
-    topProduct = eupsenv.findProduct(productName, versionName)
+    topProduct = None
+    for flavor in utils.Flavor().getFallbackFlavors(eupsenv.flavor, includeMe=True): # as Eups.setup does
+        topProduct = eupsenv.findProduct(productName, versionName, flavor=flavor)
+        if topProduct:
+            break
     if not topProduct:                  # it's never been declared (at least not with this version)
         return []
 
